@@ -27,6 +27,7 @@ class Models:
         register_all(self)
         register_more(self)
         register_ints(self)
+        register_batch3(self)
 
     def add(self, selfty, trait, method, fn):
         self.table[(selfty, trait, method)] = fn
@@ -2181,3 +2182,293 @@ def register_ints(M):
         A('num', None, m, m_int_method)
     A('cmp', None, 'max', m_cmp_max_min)
     A('cmp', None, 'min', m_cmp_max_min)
+
+
+# ------------------------------------------------------------------------------------------------ further std models (batch 3)
+
+def m_mem_swap(I, fr, a, ck):
+    x = deref1(I, fr, a[0])
+    y = deref1(I, fr, a[1])
+    write_mref(I, fr, a[0], y)
+    write_mref(I, fr, a[1], x)
+    return UNIT
+
+
+def m_mem_replace(I, fr, a, ck):
+    old = deref1(I, fr, a[0])
+    write_mref(I, fr, a[0], a[1])
+    return old
+
+
+def m_mem_take(I, fr, a, ck):
+    old = deref1(I, fr, a[0])
+    if isinstance(old, Seq):
+        new = Seq(())
+    elif isinstance(old, Str):
+        new = Str('')
+    elif isinstance(old, Adt) and old.ty == 'Option':
+        new = NONE
+    elif isinstance(old, MapV):
+        new = MapV(())
+    else:
+        raise Unsupported('mem::take of %s' % type(old).__name__)
+    write_mref(I, fr, a[0], new)
+    return old
+
+
+def m_option_take(I, fr, a, ck):
+    old = deref1(I, fr, a[0])
+    write_mref(I, fr, a[0], NONE)
+    return old
+
+
+def m_option_or(I, fr, a, ck):
+    v, d = a
+    if 1 in v.alts:
+        return merge(v.alts[1][0], v, d)
+    return d
+
+
+def m_option_is_some_and(I, fr, a, ck):
+    v, f = a
+    res = Outs()
+    if 0 in v.alts and not g_false(v.alts[0][0]):
+        res.append(ret(False, v.alts[0][0]))
+    if 1 in v.alts and not g_false(v.alts[1][0]):
+        for o in call_closure(I, fr, f, [v.alts[1][1][0]]):
+            res.append(Outcome(o.kind, gand(v.alts[1][0], o.guard), o.value, o.mem, o.msg))
+    return res
+
+
+def m_option_filter(I, fr, a, ck):
+    v, f = a
+    res = Outs()
+    if 0 in v.alts and not g_false(v.alts[0][0]):
+        res.append(ret(NONE, v.alts[0][0]))
+    if 1 in v.alts and not g_false(v.alts[1][0]):
+        x = v.alts[1][1][0]
+        b, p = _bool_of_call(I, fr, f, [mk_sref(x)])
+        for o in p:
+            res.append(Outcome('panic', gand(v.alts[1][0], o.guard), None, None, o.msg))
+        res.append(ret(option(I, b, x), v.alts[1][0]))
+    return res
+
+
+def m_bool_then(I, fr, a, ck):
+    b, f = a
+    res = Outs()
+    if not g_true(b):
+        res.append(ret(NONE, gnot(b)))
+    if not g_false(b):
+        if ck.method == 'then_some':
+            res.append(ret(some(f), b))
+        else:
+            for o in call_closure(I, fr, f, []):
+                res.append(Outcome(o.kind, gand(b, o.guard), some(o.value) if o.kind == 'ret' else None, o.mem, o.msg))
+    return res
+
+
+def m_ordering_pred(I, fr, a, ck):
+    o = I.peel_all(a[0], fr) if isinstance(a[0], (SRef, MRef)) else a[0]
+    g = lambda i: o.alts[i][0] if i in o.alts else False
+    return {'is_lt': g(0), 'is_eq': g(1), 'is_gt': g(2), 'is_le': gor(g(0), g(1)), 'is_ge': gor(g(1), g(2)), 'is_ne': gor(g(0), g(2))}[ck.method]
+
+
+def m_ordering_reverse(I, fr, a, ck):
+    o = a[0]
+    alts = {}
+    for i, (g, fs) in o.alts.items():
+        alts[2 - i] = (g, fs)
+    return Adt('Ordering', alts)
+
+
+def m_iter_sum(I, fr, a, ck):
+    it = to_iter(I, fr, a[0])
+    res = Outs()
+    for g, acc, mem in drain(I, fr, it):
+        if isinstance(acc, Outcome):
+            res.append(Outcome('panic', g, None, None, acc.msg))
+            continue
+        tot = 0
+        for x in acc:
+            x = I.peel_all(x, fr) if isinstance(x, (SRef, MRef)) else x
+            if isinstance(tot, int) and isinstance(x, int):
+                tot += x
+            else:
+                tot = I.to_bv(tot, 64) + I.to_bv(x, 64)
+        res.append(Outcome('ret', g, tot, mem))
+    return res
+
+
+def m_iter_last(I, fr, a, ck):
+    it = to_iter(I, fr, a[0])
+    res = Outs()
+    for g, acc, mem in drain(I, fr, it):
+        if isinstance(acc, Outcome):
+            res.append(Outcome('panic', g, None, None, acc.msg))
+        else:
+            res.append(Outcome('ret', g, some(acc[-1]) if acc else NONE, mem))
+    return res
+
+
+def m_iter_nth(I, fr, a, ck):
+    r = a[0]
+    it = I.peel_all(r, fr)
+    n = a[1]
+    if not isinstance(n, int) or it.kind not in ('slice', 'vals'):
+        raise EngineError('nth on %s' % it.kind)
+    s, pos = it.fields
+    if pos + n >= len(s.items):
+        write_mref(I, fr, r, IterV(it.kind, [s, len(s.items)]))
+        return NONE
+    write_mref(I, fr, r, IterV(it.kind, [s, pos + n + 1]))
+    x = s.items[pos + n]
+    return some(mk_sref(x) if it.kind == 'slice' else x)
+
+
+def m_iter_for_each(I, fr, a, ck):
+    it = to_iter(I, fr, a[0])
+    f = a[1]
+    res = Outs()
+    for g, acc, mem in drain(I, fr, it):
+        if isinstance(acc, Outcome):
+            res.append(Outcome('panic', g, None, None, acc.msg))
+            continue
+        states = [(g, mem)]
+        for x in acc:
+            nxt = []
+            for sg, sm in states:
+                fr.mem = sm
+                for o in call_mut_closure(I, fr, f, [x]):
+                    if o.kind == 'panic':
+                        res.append(Outcome('panic', gand(sg, o.guard), None, None, o.msg))
+                    else:
+                        nxt.append((gand(sg, o.guard), o.mem))
+            states = nxt
+        for sg, sm in states:
+            res.append(Outcome('ret', sg, UNIT, sm))
+    return res
+
+
+def m_vec_truncate(I, fr, a, ck):
+    s = _seq(I, fr, a[0])
+    n = a[1]
+    if not isinstance(n, int):
+        H = I.to_bv(n, 64)
+        outs = Outs()
+        base = fr.mem
+        r = a[0]
+        for h in range(0, len(s.items) + 1):
+            m = dict(base)
+            m[r.cell] = set_mpath(I, base[r.cell], r.path, Seq(s.items[:h]))
+            cond = (H == z3.BitVecVal(h, 64)) if h < len(s.items) else z3.UGE(H, z3.BitVecVal(h, 64))
+            outs.append(Outcome('ret', cond, UNIT, m))
+        return outs
+    write_mref(I, fr, a[0], Seq(s.items[:n]))
+    return UNIT
+
+
+def m_vec_reverse(I, fr, a, ck):
+    s = _seq(I, fr, a[0])
+    write_mref(I, fr, a[0], Seq(tuple(reversed(s.items))))
+    return UNIT
+
+
+def m_vec_swap(I, fr, a, ck):
+    s = _seq(I, fr, a[0])
+    i, j = a[1], a[2]
+    if not (isinstance(i, int) and isinstance(j, int)):
+        raise EngineError('swap at symbolic indices')
+    if i >= len(s.items) or j >= len(s.items):
+        return Outs([panic(True, 'index out of bounds in swap')])
+    items = list(s.items)
+    items[i], items[j] = items[j], items[i]
+    write_mref(I, fr, a[0], Seq(items))
+    return UNIT
+
+
+def m_vec_iter_mut(I, fr, a, ck):
+    raise Unsupported('iter_mut (mutable iteration) is not modelled')
+
+
+def m_string_push_str(I, fr, a, ck):
+    s = deref1(I, fr, a[0])
+    t = I.peel_all(a[1], fr)
+    if isinstance(s.s, str) and isinstance(t.s, str):
+        write_mref(I, fr, a[0], Str(s.s + t.s))
+        return UNIT
+    raise EngineError('push_str on symbolic strings')
+
+
+def m_str_len(I, fr, a, ck):
+    s = I.peel_all(a[0], fr)
+    if isinstance(s, Str) and isinstance(s.s, str):
+        return len(s.s.encode())
+    if isinstance(s, Str):
+        return z3.Int2BV(z3.Length(s.s), 64)
+    raise EngineError('len of %s' % type(s).__name__)
+
+
+def m_str_is_empty(I, fr, a, ck):
+    s = I.peel_all(a[0], fr)
+    if isinstance(s.s, str):
+        return len(s.s) == 0
+    return z3.Length(s.s) == 0
+
+
+def m_str_pred(I, fr, a, ck):
+    s = I.peel_all(a[0], fr)
+    t = I.peel_all(a[1], fr)
+    if not (isinstance(s, Str) and isinstance(t, Str)):
+        raise EngineError('str predicate on %s' % type(t).__name__)
+    if isinstance(s.s, str) and isinstance(t.s, str):
+        return {'starts_with': s.s.startswith(t.s), 'ends_with': s.s.endswith(t.s), 'contains': t.s in s.s}[ck.method]
+    ss = z3.StringVal(s.s) if isinstance(s.s, str) else s.s
+    ts = z3.StringVal(t.s) if isinstance(t.s, str) else t.s
+    return {'starts_with': z3.PrefixOf(ts, ss), 'ends_with': z3.SuffixOf(ts, ss), 'contains': z3.Contains(ss, ts)}[ck.method]
+
+
+def m_rc_count(I, fr, a, ck):
+    raise Unsupported('reference counts are not modelled (value semantics for Rc)')
+
+
+def m_entry_or_insert(I, fr, a, ck):
+    raise Unsupported('HashMap entry API is not modelled')
+
+
+def register_batch3(M):
+    A = M.add
+    A('mem', None, 'swap', m_mem_swap)
+    A('mem', None, 'replace', m_mem_replace)
+    A('mem', None, 'take', m_mem_take)
+    A('Option', None, 'take', m_option_take)
+    A('Option', None, 'or', m_option_or)
+    A('Option', None, 'is_some_and', m_option_is_some_and)
+    A('Option', None, 'filter', m_option_filter)
+    A('bool', None, 'then', m_bool_then)
+    A('bool', None, 'then_some', m_bool_then)
+    for m in ('is_lt', 'is_eq', 'is_gt', 'is_le', 'is_ge', 'is_ne'):
+        A('Ordering', None, m, m_ordering_pred)
+    A('Ordering', None, 'reverse', m_ordering_reverse)
+    A(None, 'Iterator', 'sum', m_iter_sum)
+    A(None, 'Iterator', 'last', m_iter_last)
+    A(None, 'Iterator', 'nth', m_iter_nth)
+    A(None, 'Iterator', 'for_each', m_iter_for_each)
+    A('Vec', None, 'truncate', m_vec_truncate)
+    A('Vec', None, 'reverse', m_vec_reverse)
+    A('slice', None, 'reverse', m_vec_reverse)
+    A('slice', None, 'swap', m_vec_swap)
+    A('Vec', None, 'swap', m_vec_swap)
+    A('slice', None, 'iter_mut', m_vec_iter_mut)
+    A('Vec', None, 'first', m_slice_first)
+    A('Vec', None, 'last', m_slice_last)
+    A('String', None, 'push_str', m_string_push_str)
+    A('str', None, 'len', m_str_len)
+    A('String', None, 'len', m_str_len)
+    A('str', None, 'is_empty', m_str_is_empty)
+    A('String', None, 'is_empty', m_str_is_empty)
+    for m in ('starts_with', 'ends_with', 'contains'):
+        A('str', None, m, m_str_pred)
+    A('Rc', None, 'strong_count', m_rc_count)
+    A('Rc', None, 'weak_count', m_rc_count)
+    A('HashMap', None, 'entry', m_entry_or_insert)
